@@ -14,6 +14,21 @@ CHECKS = {
             "interpreter, client classes and transport registry compared with what the request asked for. Sampling of an unbounded input "
             "space, so 'held on what was generated', not verified.",
             "identity pandoc stand-in; python 3.12 + installed runtime deps; style-guide identifiers only", "7.1"),
+    "C02": ("translation_validation",
+            "runtime monitoring: per emitted types module, runtime descriptors + two-way byte round trips + JSON keys judged against a private DescriptorPool of the input",
+            "One obligation set per emitted types package: every message/enum class is compared with the input DescriptorProto (canonical form), and "
+            "random valuations are round-tripped both ways and through JSON under the *input* descriptors. Held on the programs generated this run.",
+            "proto-plus/protobuf runtime trusted; NaN excluded; reserved list read from the tree", "7.2"),
+    "C03": ("exploration",
+            "runtime monitoring: loopback gRPC server recording path/bytes/metadata + channel proxy recording arity, offline oracle over the event log",
+            "Every RPC of N generated libraries is invoked through the real sync and asyncio clients (message/dict/omitted request) and the recorded "
+            "wire events are judged against the input descriptors. Sampling; held on the calls observed.",
+            "grpcio loopback trusted; style-guide RPC names", "7.3"),
+    "C11": ("exploration",
+            "runtime monitoring: response-boundary monitor (file names, feature bits) vs layout reference + metamorphic option-noise pairs",
+            "N seeded requests varying package shape, file names and options; response names judged by a reference written from the statement; each "
+            "request re-run with unknown/repeated options must give byte-identical output.",
+            "lower-case proto packages, lower_snake/dotted/keyword file names", "7.11"),
 }
 
 NOT_YET = {}
